@@ -393,7 +393,7 @@ class BSplineBasis:
         :raises ValueError: If the new knot is outside the domain
         """
         if self.periodic >= 0:
-            if new_knot < self.start() or new_knot > self.end():
+            if new_knot < self.start() or new_knot >= self.end():
                 new_knot = (new_knot - self.start()) % (self.end() - self.start()) + self.start()
         elif new_knot < self.start() or self.end() < new_knot:
             raise ValueError('new_knot out of range')
